@@ -4,7 +4,9 @@
 # mode the harness edits the builds' declared input FILES in rounds (each script exits with the status written in its input: an
 # edit can break or repair a build) — atomic saves, so every round after the first also exercises the repair of D16.
 # runner/drv_evflow.ml replays every actor with Actor.actor_step on exactly the events it consumed (no search: the build
-# results and change notices are recorded where they happened) and checks per-sender FIFO delivery.
+# results and change notices are recorded where they happened), checks per-sender FIFO delivery, and replays the whole run as ONE
+# execution of Sys.exec (every recorded event becomes a label that must be enabled): the observed run is a trace of the system
+# model, so the theorems about reachable states speak about it.
 import concurrent.futures
 import os
 import vf
@@ -88,7 +90,9 @@ def run(ck, n_cases, shards=8):
             'record every event each real actor consumes, the interposed relay every message; every actor is replayed with '
             'Actor.actor_step on exactly its events: what it sent must be what the model sends (order across steps fixed, '
             'within a step free), every event must be possible in the model state, and what each actor consumed from each '
-            'sender must be a prefix of what was relayed to it from that sender; non-trivial = distinct (mode, graph, roots, '
+            'sender must be a prefix of what was relayed to it from that sender; and the WHOLE RUN is replayed as one execution of '
+            'Sys.exec (events -> labels LDeliverAt / LChange+LInval / LBuildDone / LTermActor, the root advanced in the recorded relay '
+            'order): every label must be enabled and the status run returned must be the model\'s; non-trivial = distinct (mode, graph, roots, '
             'failing set, rounds) with at least one change notice consumed (watch) or one message (one-shot)')
     bad = []
     for cid in ids:
